@@ -176,6 +176,63 @@ theorem temp_counter_renaming_injective (start : Nat) (sched sched' : List Nat) 
 example : tempName 7 [0, 0, 1, 1] 1 0 = some 9 ∧ tempName 7 [1, 0, 1, 0] 1 0 = some 7 ∧
     renameTo 7 [0, 0, 1, 1] [1, 0, 1, 0] 9 = 7 ∧ renameTo 7 [0, 0, 1, 1] [1, 0, 1, 0] 3 = 3 := by decide
 
+/-! ## Atomicity made explicit -/
+
+theorem crun_atomic_aux (sched : List Nat) (s : CState) :
+    (sched.foldl (fun st w => cstep st (.rmw w)) s).issued =
+        s.issued ++ List.zip sched (List.range' s.ctr sched.length) ∧
+      (sched.foldl (fun st w => cstep st (.rmw w)) s).ctr = s.ctr + sched.length := by
+  induction sched generalizing s with
+  | nil => simp
+  | cons w ws ih =>
+    obtain ⟨h1, h2⟩ := ih (cstep s (.rmw w))
+    have e1 : (cstep s (.rmw w)).issued = s.issued ++ [(w, s.ctr)] := rfl
+    have e2 : (cstep s (.rmw w)).ctr = s.ctr + 1 := rfl
+    rw [e1, e2] at h1
+    rw [e2] at h2
+    simp only [List.foldl_cons, List.length_cons, List.range'_succ, List.zip_cons_cons]
+    constructor
+    · rw [h1]; simp
+    · rw [h2]; omega
+
+/-- **atomic_counter_distinct**: with the atomic read-modify-write, for EVERY interleaving `sched`
+of the workers' requests (induction over the schedule): the j-th request served receives
+`start + j` — so the numbers are exactly the block, pairwise distinct, and each worker's requests are
+served in its program order; this is the position-based `tempName` model. -/
+theorem atomic_counter_distinct (start : Nat) (sched : List Nat) :
+    let s := crun start (sched.map .rmw)
+    s.issued = List.zip sched (List.range' start sched.length) ∧
+      (s.issued.map (·.2)).Nodup ∧ s.ctr = start + sched.length := by
+  have h := crun_atomic_aux sched { ctr := start, regs := [], issued := [] }
+  have e : crun start (sched.map .rmw) =
+      sched.foldl (fun st w => cstep st (.rmw w)) { ctr := start, regs := [], issued := [] } := by
+    simp [crun, List.foldl_map]
+  simp only [e, h.1, h.2, List.nil_append, true_and]
+  constructor
+  · have : (List.zip sched (List.range' start sched.length)).map (·.2) = List.range' start sched.length := by
+      apply List.map_snd_zip
+      simp
+    rw [this]
+    exact List.nodup_range'
+  · trivial
+
+example : (crun 7 [.rmw 1, .rmw 0, .rmw 1]).issued = [(1, 7), (0, 8), (1, 9)] := by decide
+
+/-- **split_counter_lost_update** (class of seeded fault C12g): with `load` and `store` as two steps
+there is an interleaving in which two workers receive the same number (and the counter ends too
+low) — the full statement "numbers are pairwise distinct for every interleaving of worker steps" is
+false for the split counter. -/
+theorem split_counter_lost_update :
+    ∃ steps : List CStep, ¬ ((crun 7 steps).issued.map (·.2)).Nodup ∧ (crun 7 steps).ctr < 7 + (crun 7 steps).issued.length :=
+  ⟨[.load 0, .load 1, .store 0, .store 1], by decide, by decide⟩
+
+/-- **split_counter_partial**: the split counter is only safe when every `load` is immediately
+followed by the same worker's `store` (no interleaving inside the pair), where it behaves like `rmw`. -/
+theorem split_counter_partial (s : CState) (w : Nat) (_h : regOf s.regs w = none) :
+    let s' := cstep (cstep s (.load w)) (.store w)
+    s'.ctr = (cstep s (.rmw w)).ctr ∧ s'.issued = (cstep s (.rmw w)).issued := by
+  simp [cstep, regOf]
+
 /-! ## Phase boundaries -/
 
 theorem issued_flatten_of_allSynced (ps : List Phase) (H : Nat) (h : allSynced ps = true) :
